@@ -781,7 +781,7 @@ def path_final_const(f, path, lvalue):
         op = ev.e.get("op", "=") if ev.kind == "assign" else "="
         rv = const_eval(ev.rhs, ints, {})
         isvar = strip(ev.lhs)["k"] == "var"
-        cur = ints.get(name) if isvar else (val if name == lvalue else None)
+        cur = ints.get(name) if isvar else (val if (name == lvalue or (isinstance(lvalue, (set, frozenset)) and name in lvalue)) else None)
         if op == "=":
             new = rv
         elif op == "|=" and rv is not None and cur is not None:
@@ -795,6 +795,6 @@ def path_final_const(f, path, lvalue):
                 ints.pop(name, None)
             else:
                 ints[name] = new
-        if name == lvalue:
+        if name == lvalue or (isinstance(lvalue, (set, frozenset)) and name in lvalue):
             stored, val = True, new
     return stored, val
